@@ -37,6 +37,7 @@ MIN_REACH = {
     "searches_with_a_progress_bar": {"quick": 60, "thorough": 800},
     "requested_grids_given_as_one_shot_iterables": {"quick": 30, "thorough": 400},
     "complex_valued_variables": {"quick": 80, "thorough": 1000},
+    "datasets_of_a_hundred_thousand_and_more_numbers": {"quick": 3, "thorough": 12},
 }
 TIME_BUDGET = {"quick": 400, "thorough": 3400}
 # (some parameter names coincide with keyword options of xarray's own selection methods: they are ordinary names here)
@@ -59,6 +60,16 @@ def cases(ctx):
                "p": rng.choice([0.2, 0.5, 0.8]), "inf": rng.random() < 0.3, "method": rng.choice(["isnull", "isnull", "isfinite"]),
                "ignore_as": rng.choice(["list", "set", "str", "tuple"]), "ignore_param": rng.random() < 0.25,
                "dseed": rng.randint(0, 10 ** 9), "da": rng.random() < 0.15}
+    # LARGE datasets (a couple of hundred locations, each a long internal axis: 10**5 and more numbers), with holes far
+    # from the start of the leading dimension: whatever screening is done block-wise must label every block's locations
+    for i in range(ctx.pick(4, 16)):
+        dims = [["a", "b"], ["b", "a"], ["c", "a", "b"]][i % 3]
+        sizes = {"a": 48, "b": 4, "c": 2}
+        yield {"type": "find", "dims": dims, "sizes": {d: sizes[d] for d in dims}, "coordt": {d: ["int", "float", "str"][(i + k) % 3] for k, d in enumerate(dims)},
+               "vars": [{"name": "v0", "dims": list(dims), "internal": True, "dtype": "float"}] + (
+                   [{"name": "v1", "dims": list(dims), "internal": False, "dtype": "float"}] if i % 2 else []),
+               "pattern": ["cells", "mixed", "infcells"][i % 3], "p": [0.05, 0.2][i % 2], "inf": False, "method": ["isnull", "isfinite"][(i // 3) % 2] if i % 3 != 2 else "isfinite",
+               "ignore_as": "list", "ignore_param": False, "dseed": 1000 + i, "da": False, "tau_n": 1024, "large": True}
     for i in range(ctx.pick(50, 450)):
         yield {"type": "loop", "dseed": rng.randint(0, 10 ** 9), "kind": rng.choice(["float", "multi:s,a3"]),
                "npts": rng.randint(1, 7), "engine": rng.choice(["h5netcdf", "joblib", None])}
@@ -101,14 +112,14 @@ def build(case):
         coords[d] = {"int": (np.arange(n) * 2 + 1)[rng.permutation(n)], "float": np.round(np.cumsum(rng.uniform(0.1, 1, n)), 3),
                      "str": np.array(["k%d" % i for i in range(n)]),
                      # points in time / durations as labels (a 'day' parameter): numpy's own time types, ns resolution
-                     "date": np.array(["2021-03-%02d" % (3 * i + 1) for i in range(n)], dtype="datetime64[ns]"),
+                     "date": (np.datetime64("2021-03-01", "ns") + np.arange(n) * np.timedelta64(3, "D")).astype("datetime64[ns]"),
                      "dur": np.array([1500 * (i + 1) for i in range(n)], dtype="timedelta64[ms]").astype("timedelta64[ns]")}[t]
     full_shape = tuple(sizes[d] for d in dims)
     cellmask = rng.random(full_shape) < case["p"]          # True = this location has no data at all
     data = {}
     for vi, v in enumerate(case["vars"]):
         vd = list(v["dims"])
-        shape = tuple(sizes[d] for d in vd) + ((3,) if v["internal"] else ())
+        shape = tuple(sizes[d] for d in vd) + ((case.get("tau_n", 3),) if v["internal"] else ())
         x = rng.normal(size=shape)
         # project the whole-cell mask onto this variable's dims: null where ALL cells sharing these coords are masked
         red = tuple(i for i, d in enumerate(dims) if d not in vd)
@@ -152,7 +163,7 @@ def build(case):
             COMPLEX_VARS[0] += 1
         data[v["name"]] = (tuple(vd) + (("tau",) if v["internal"] else ()), x)
     if any(v["internal"] for v in case["vars"]):
-        coords["tau"] = [0.1, 0.2, 0.3]
+        coords["tau"] = [0.1, 0.2, 0.3] if case.get("tau_n", 3) == 3 else (np.arange(case["tau_n"]) * 0.5).tolist()
     return xr.Dataset(data, coords=coords)
 
 
@@ -201,6 +212,8 @@ def run_case(ctx, case):
     import xarray as xr
     if case["type"] == "loop":
         return run_loop(ctx, case)
+    if case.get("large"):
+        ctx.count("datasets_of_a_hundred_thousand_and_more_numbers")
     c0_ = COMPLEX_VARS[0]
     ds = build(case)
     ctx.count("complex_valued_variables", COMPLEX_VARS[0] - c0_)
